@@ -183,6 +183,12 @@ def run_system(sysd, tier, res, fsets=None):
                             else:
                                 ts = ode.FreqDirect(*args, rf=rfarg)
                             sol = ts.fsolve(F.copy(), freq.copy(), incrb=incrb, rf_disp_only=rdo)
+                            if incrb in ("dva", "a", 1):
+                                # solver objects are reusable: a different solve in between must not change the answer
+                                ts.fsolve(F[:, ::-1].copy() * 2.0, freq[::-1].copy() + 0.37, incrb="v", rf_disp_only=not rdo)
+                                again = ts.fsolve(F.copy(), freq.copy(), incrb=incrb, rf_disp_only=rdo)
+                                if not all(np.array_equal(getattr(again, nm), getattr(sol, nm)) for nm in "dva"):
+                                    out.append((case, "%s: solving again on the same instance (after a different fsolve) gives a different answer" % tag))
                     except Exception as e:  # noqa
                         out.append((case, "%s: fsolve raised %r" % (tag, e)))
                         continue
